@@ -239,6 +239,7 @@ func Apply(op ref.Op, in []tensor.Tensor) (tensor.Tensor, error) {
 			if ts[i] != in[i] {
 				panic(fmt.Sprintf("Concat modified the caller's tensor list at position %d", i))
 			}
+			ts[i] = nil // the caller reuses its list
 		}
 		return r, err
 	case "Relu":
@@ -295,6 +296,12 @@ func mustUnchangedInts(what string, passed, orig []int) {
 			panic(fmt.Sprintf("%s modified the caller's slice: passed %v, now %v", what, orig, passed))
 		}
 	}
+	// the caller is free to reuse its buffer: scribble over it, so that a
+	// library that kept the slice (as dims, or inside a backward closure)
+	// shows it in everything observed later
+	for i := range passed {
+		passed[i] = -7 - i
+	}
 }
 
 func mustUnchangedRanges(what string, passed []tensor.Range, orig []ref.Range) {
@@ -302,6 +309,9 @@ func mustUnchangedRanges(what string, passed []tensor.Range, orig []ref.Range) {
 		if passed[i].From != orig[i].From || passed[i].To != orig[i].To {
 			panic(fmt.Sprintf("%s modified the caller's index slice: passed %v, now %v", what, orig, passed))
 		}
+	}
+	for i := range passed {
+		passed[i] = tensor.Range{From: -3 - i, To: -9}
 	}
 }
 
